@@ -232,45 +232,57 @@ func appendField(r *rand.Rand, b []byte, tag int, sh shape, depth int) []byte {
 	n := protowire.Number(tag)
 	switch sh {
 	case shVarint:
-		b = protowire.AppendTag(b, n, protowire.VarintType)
+		b = appendKey(r, b, n, protowire.VarintType)
 		b = protowire.AppendVarint(b, rnd64(r))
 	case shFixed32:
-		b = protowire.AppendTag(b, n, protowire.Fixed32Type)
+		b = appendKey(r, b, n, protowire.Fixed32Type)
 		b = protowire.AppendFixed32(b, r.Uint32())
 	case shFixed64:
-		b = protowire.AppendTag(b, n, protowire.Fixed64Type)
+		b = appendKey(r, b, n, protowire.Fixed64Type)
 		b = protowire.AppendFixed64(b, r.Uint64())
 	case shString:
-		b = protowire.AppendTag(b, n, protowire.BytesType)
+		b = appendKey(r, b, n, protowire.BytesType)
 		b = protowire.AppendBytes(b, rndBytes(r))
 	case shPackedVarint:
 		var p []byte
 		for i, k := 0, r.Intn(4); i < k; i++ {
 			p = protowire.AppendVarint(p, rnd64(r))
 		}
-		b = protowire.AppendTag(b, n, protowire.BytesType)
+		b = appendKey(r, b, n, protowire.BytesType)
 		b = protowire.AppendBytes(b, p)
 	case shPackedFixed32:
 		var p []byte
 		for i, k := 0, r.Intn(4); i < k; i++ {
 			p = protowire.AppendFixed32(p, r.Uint32())
 		}
-		b = protowire.AppendTag(b, n, protowire.BytesType)
+		b = appendKey(r, b, n, protowire.BytesType)
 		b = protowire.AppendBytes(b, p)
 	case shPackedFixed64:
 		var p []byte
 		for i, k := 0, r.Intn(3); i < k; i++ {
 			p = protowire.AppendFixed64(p, r.Uint64())
 		}
-		b = protowire.AppendTag(b, n, protowire.BytesType)
+		b = appendKey(r, b, n, protowire.BytesType)
 		b = protowire.AppendBytes(b, p)
 	case shMessage:
 		var p []byte
 		if r.Intn(5) > 0 {
 			p = genMessage(r, depth+1, nestedShapes(tag, depth))
 		}
-		b = protowire.AppendTag(b, n, protowire.BytesType)
+		b = appendKey(r, b, n, protowire.BytesType)
 		b = protowire.AppendBytes(b, p)
+	}
+	return b
+}
+
+// appendKey writes the key of field n; now and then in one byte more than necessary (a well-formed encoding that encoders do not
+// produce but parsers have to accept)
+func appendKey(r *rand.Rand, b []byte, n protowire.Number, t protowire.Type) []byte {
+	start := len(b)
+	b = protowire.AppendTag(b, n, t)
+	if r.Intn(12) == 0 && len(b)-start < 5 {
+		b[len(b)-1] |= 0x80
+		b = append(b, 0x00)
 	}
 	return b
 }
